@@ -55,6 +55,19 @@ var explainRound4 = map[string]string{
 	"C19": " Round 4: (S) also: the parent's fields are copied into the derived filter before any key is added to it — a whole-field overwrite after Add, or after a constructor that was handed the new keys, drops what those keys had set.",
 }
 
+// explainRound5: rules written in response to the fifth seeding round.
+var explainRound5 = map[string]string{
+	"C01": " Round 5: (W) the window rule also covers reads made by a module helper that indexes its (slice, index) parameters without a length test of its own (util.ToRune), and both edges of every comparison with a length count as guards; (Q) all comparisons with one named byte constant (\"class\") agree on case sensitivity — the attribute parser's type check and its merge step must recognise the same spellings.",
+	"C02": " Round 5: (L) a table keyed by lower-case words (the HTML block tag names) is looked up only with lower-cased keys.",
+	"C06": " Round 5: (G) configuration-time code — every New… and With… function, its closures and static callees — writes no memory rooted at a package-level variable (reviewed exceptions: the node-kind and context-key registries).",
+	"C08": " Round 5: (R) render functions never slice the source between positions of two different segments (= C10).",
+	"C10": " Round 5: (A) every constructor taking functional options applies them to the object it returns (in place through a pointer into it, or through a copy that is stored back); (R) render functions read node text segment by segment — the source between two segments holds container markers, so Unsafe output would differ from safe output by more than the placeholder.",
+	"C11": " Round 5: (X) the Extend methods of the extensions hand only registration options (With…Parsers, With…Transformers, WithNodeRenderers) to the instance; instance-wide options passed along change documents that do not use the extension (CJK is the reviewed exception).",
+	"C13": " Round 5: (R) a method that unlinks one child stores firstChild on every path on which the child had no previous sibling and lastChild on every path on which it had no next sibling.",
+	"C15": " Round 5: (A) = C10-A: options given to NewATXHeadingParser / NewSetextHeadingParser reach the parser that is returned (an auto-id option applied to a dropped copy yields headings without ids).",
+	"C16": " Round 5: (B) also: the table of running per-footnote ordinals is allocated once per Transform — not in a loop and not in a helper called twice — so ordinals do not restart.",
+}
+
 func augmentExplain() {
 
 	for id, more := range explainMore {
@@ -68,6 +81,11 @@ func augmentExplain() {
 		}
 	}
 	for id, more := range explainRound4 {
+		if p := registry[id]; p != nil {
+			p.Explain += more
+		}
+	}
+	for id, more := range explainRound5 {
 		if p := registry[id]; p != nil {
 			p.Explain += more
 		}
